@@ -47,6 +47,15 @@ func TestRegress_Accept(t *testing.T) {
 		"for(async in b);":                "Stmt(for async in b Stmt({ }))",
 		"for(async.x in b);":              "Stmt(for (async.x) in b Stmt({ }))",
 		"x = async in b":                  "Stmt(x=(async in b))",
+		// 339f89e: automatic semicolon insertion in front of + - and a regular expression behind yield or an arrow function body
+		"function*f(){yield\n+1}":           "Decl(function* f Params() Stmt({ Stmt(yield) Stmt(+1) }))",
+		"function*f(){yield\n/re/.test(x)}": "Decl(function* f Params() Stmt({ Stmt(yield) Stmt((/re/.test)(x)) }))",
+		"a = () => {}\n-c":                  "Stmt(a=(Params() => Stmt({ }))) Stmt(-c)",
+		"a = () => {}\n/=re/g":              "Stmt(a=(Params() => Stmt({ }))) Stmt(/=re/g)",
+		"a+b\n/=re/g":                       "Stmt(a+b) Stmt(/=re/g)",
+		// 83f3da2: get or set in front of a generator method on the next line is a field
+		"class A { get\n *a(){} }":        "Decl(class A Field(get) Method(* a Params() Stmt({ })))",
+		"class A { static set\n *a(){} }": "Decl(class A Field(static set) Method(* a Params() Stmt({ })))",
 	} {
 		ast, err := js.Parse(parse.NewInputString(src), js.Options{})
 		if err != nil {
